@@ -904,11 +904,10 @@ static void op_oct(const std::vector< std::string > &w) {
   const double eps = 1.e-12;
   if (oc_pos.size() == 1 && ((sub == "ngbs" && w.size() == 5) || (sub == "sphere" && w.size() == 6) ||
                              (sub == "closest" && w.size() == 5))) {
-    // a one-position tree: the root is a leaf; OctreeNode(index) initialises only _children and
-    // _index and collapse() sets _child for internal nodes only, so the searches, which start at
-    // _root->get_child(), read an uninitialised pointer (null in fresh memory: nothing is found;
-    // anything else: crash).  The call runs in a forked child; true = it came back with the
-    // brute-force answer.  The compared answer is the "nothing found" outcome the model mirrors.
+    // a one-position tree: the root is a leaf.  Before the fix (get_first_node, _child/_sibling
+    // initialised) the walks started at _root->get_child(), an uninitialised pointer of a leaf
+    // (null in fresh memory: nothing found; anything else: crash).  The call is first tried in a
+    // forked child: true = it came back with the brute-force answer; then it is made for real.
     const CoordinateVector<> q(dbl(w[2]), dbl(w[3]), dbl(w[4]));
     const double rad = (sub == "sphere") ? dbl(w[5]) : 0.;
     const double r = oc_dist(oc_pos[0], q);
@@ -925,15 +924,11 @@ static void op_oct(const std::vector< std::string > &w) {
         return res.empty();
       return res.empty() || (res.size() == 1 && res[0] == 0);
     });
-    if (sub == "closest")
-      std::cout << "oct closest 0\n";
-    else if (ok && must_in)
-      std::cout << "oct " << sub << " 1 0\n";
-    else
-      std::cout << "oct " << sub << " 0\n";
-    if (!ok)
+    if (!ok) {
+      std::cout << "oct " << sub << " implementation-failed\n";
       oracle("single-position-search-returns-nothing");
-    return;
+      return;
+    }
   }
   if ((sub == "ngbs" && w.size() == 5) || (sub == "sphere" && w.size() == 6)) {
     const CoordinateVector<> q(dbl(w[2]), dbl(w[3]), dbl(w[4]));
